@@ -230,6 +230,8 @@ def gen_number(rng):
         # around a power of ten
         k = rng.randint(-8, 25)
         x = 10.0 ** k
+        if rng.random() < 0.3:
+            x = x * (1.0 - 10.0 ** -rng.randint(10, 13))     # just below, but well outside libm's rounding band
         for _ in range(rng.randint(0, 2)):
             x = math.nextafter(x, rng.choice([0.0, math.inf]))
         return x * rng.choice([1, 1, -1])
@@ -635,7 +637,7 @@ def near_log10_boundary(case):
             if x > 0 and not math.isinf(x):
                 l = math.log10(x)
                 k = round(l)
-                if abs(l - k) < 1e-9:
+                if abs(l - k) < 2e-14 * max(1.0, abs(k)):      # a few ulp of the logarithm
                     if 0 <= k <= 22 and x == float(10 ** k):
                         continue      # an exact power of ten: libm's log10 is exact there
                     return True
